@@ -1,1 +1,115 @@
 //! Shared helpers for driving a real kanidm server from the harness.
+//!
+//! * time is a harness counter: `T0 + n` seconds; T0 is later than the wall clock so that an
+//!   accidental use of real time inside the library can never overtake harness time;
+//! * servers run on in-memory SQLite unless a path is given;
+//! * one current-thread tokio runtime with only the time driver (no threads, no fds), which makes
+//!   the whole process image safe to `fork()` as a state snapshot.
+
+use kanidm_proto::internal::FsType;
+use kanidmd_lib::be::{Backend, BackendConfig};
+use kanidmd_lib::prelude::*;
+use kanidmd_lib::schema::Schema;
+use std::path::Path;
+use std::sync::Arc;
+
+/// Harness epoch, seconds. 2030-03-17.
+pub const T0: u64 = 1_900_000_000;
+
+pub fn t(n: u64) -> Duration {
+    Duration::from_secs(T0 + n)
+}
+
+pub fn new_rt() -> tokio::runtime::Runtime {
+    tokio::runtime::Builder::new_current_thread()
+        .enable_time()
+        .build()
+        .unwrap_or_else(|e| kv_engine::ctx::machinery_exit(&format!("tokio runtime: {e}")))
+}
+
+pub struct Srv {
+    pub rt: tokio::runtime::Runtime,
+    pub qs: QueryServer,
+}
+
+pub fn new_qs(path: Option<&Path>, pool: u32, level: DomainVersion, init_at: Duration, rt: &tokio::runtime::Runtime) -> Result<QueryServer, OperationError> {
+    let schema_outer = Schema::new()?;
+    let idxmeta = {
+        let schema_txn = schema_outer.write();
+        schema_txn.reload_idxmeta()
+    };
+    let cfg = BackendConfig::new(path, pool, FsType::Generic, Some(2048));
+    let be = Backend::new(cfg, idxmeta, false)?;
+    let qs = QueryServer::new(be, schema_outer, "example.com".to_string(), Duration::ZERO)?;
+    rt.block_on(qs.initialise_helper(init_at, level))?;
+    Ok(qs)
+}
+
+impl Srv {
+    /// Fresh in-memory server at the current target domain level, initialised at `t(0)`.
+    pub fn new() -> Srv {
+        Self::new_at(None, 1, DOMAIN_TGT_LEVEL)
+    }
+
+    pub fn new_at(path: Option<&Path>, pool: u32, level: DomainVersion) -> Srv {
+        let rt = new_rt();
+        let qs = new_qs(path, pool, level, t(0), &rt)
+            .unwrap_or_else(|e| kv_engine::ctx::machinery_exit(&format!("server init failed: {e:?}")));
+        Srv { rt, qs }
+    }
+
+    /// Run `f` in a write transaction at time `ct`; commit iff `f` returned Ok.
+    pub fn write<R>(
+        &self,
+        ct: Duration,
+        f: impl FnOnce(&mut QueryServerWriteTransaction<'_>) -> Result<R, OperationError>,
+    ) -> Result<R, OperationError> {
+        self.rt.block_on(async {
+            let mut w = self.qs.write(ct).await?;
+            let r = f(&mut w)?;
+            w.commit()?;
+            Ok(r)
+        })
+    }
+
+    /// Run `f` in a write transaction that is then dropped without commit.
+    pub fn write_abort<R>(&self, ct: Duration, f: impl FnOnce(&mut QueryServerWriteTransaction<'_>) -> R) -> Result<R, OperationError> {
+        self.rt.block_on(async {
+            let mut w = self.qs.write(ct).await?;
+            Ok(f(&mut w))
+        })
+    }
+
+    pub fn read<R>(&self, f: impl FnOnce(&mut QueryServerReadTransaction<'_>) -> R) -> R {
+        self.rt.block_on(async {
+            let mut r = self
+                .qs
+                .read()
+                .await
+                .unwrap_or_else(|e| kv_engine::ctx::machinery_exit(&format!("read txn: {e:?}")));
+            f(&mut r)
+        })
+    }
+}
+
+/// All non-builtin... helper: render an entry deterministically (attribute -> sorted proto strings).
+pub fn render_entry(e: &Arc<kanidmd_lib::entry::Entry<kanidmd_lib::entry::EntrySealed, kanidmd_lib::entry::EntryCommitted>>, skip: &[Attribute]) -> String {
+    let mut parts: Vec<String> = Vec::new();
+    for (attr, vs) in e.get_ava_iter() {
+        if skip.contains(attr) {
+            continue;
+        }
+        let mut vals: Vec<String> = vs.to_proto_string_clone_iter().collect();
+        vals.sort();
+        parts.push(format!("{}={}", attr.as_str(), vals.join("|")));
+    }
+    parts.sort();
+    parts.join(";")
+}
+
+pub fn opstr<T>(r: &Result<T, OperationError>) -> String {
+    match r {
+        Ok(_) => "ok".to_string(),
+        Err(e) => format!("err:{e:?}"),
+    }
+}
